@@ -1309,6 +1309,15 @@ Qed.
 
 Definition Inv (s : state) : Prop := SIs s /\ PI s /\ broken s = false.
 
+Lemma NoDup_snoc_q : forall (q : list tid) t, ~ In t q -> NoDup q -> NoDup (q ++ [t]).
+Proof.
+  induction q as [|a q IH]; intros t Hn Hq; cbn.
+  - constructor; [intros []|constructor].
+  - inversion Hq as [|x l Hx Hl]; subst. constructor.
+    + rewrite in_app_iff. cbn. intros [H|[H|[]]]; [exact (Hx H)|subst; apply Hn; left; reflexivity].
+    + apply IH; [intros H; apply Hn; right; exact H|exact Hl].
+Qed.
+
 Lemma ph_upd_set_ph : forall T t p' x,
   ph (upd T t (set_ph (T t) p') x) = if Nat.eqb t x then p' else ph (T x).
 Proof. intros. unfold upd. destruct (Nat.eqb t x); reflexivity. Qed.
@@ -1673,6 +1682,16 @@ Proof.
     rewrite Hp in H. cbn in H. rewrite andb_false_r in H. discriminate.
 Qed.
 
+Lemma Inv_LRot : forall s s', Inv s -> step c s LRot = Some s' -> Inv s'.
+Proof.
+  intros s s' (I & P & Hb) Hs. unfold step in Hs.
+  destruct (queue s) as [|t q] eqn:Eq; [discriminate|]. injection Hs as <-.
+  split; [exact I|]. split; [|exact Hb].
+  dPI P. rewrite Eq in Qnd. constructor; cbn [tasks queue busy next err log]; try assumption.
+  - inversion Qnd as [|x l Hx Hl]; subst. apply NoDup_snoc_q; assumption.
+  - intros x. rewrite <- Qph, Eq. rewrite in_app_iff. cbn. tauto.
+Qed.
+
 (* ---- all labels ---- *)
 
 Lemma Inv_init : Inv init.
@@ -1692,6 +1711,7 @@ Proof.
   - eapply Inv_LUnread; eassumption.
   - eapply Inv_LNotify; eassumption.
   - eapply Inv_LStop; eassumption.
+  - eapply Inv_LRot; eassumption.
 Qed.
 
 Lemma Inv_steps : forall s tr s',
@@ -1863,6 +1883,7 @@ Proof.
   - destruct (ph (tasks s t)); try discriminate. destruct (reading (tasks s t)); [|discriminate].
     injection H as <-. left. reflexivity.
   - injection H as <-. right. right. right. right. auto.
+  - destruct (queue s); [discriminate|]. injection H as <-. left. reflexivity.
 Qed.
 
 Lemma log_from_labels : forall c tr s, steps c init tr s ->
@@ -1976,6 +1997,9 @@ Proof.
   - destruct (Hph t) as [H1|H1]; rewrite H1; reflexivity.
   - destruct (Hph t) as [H1|H1]; rewrite H1; reflexivity.
   - contradiction.
+  - destruct (queue s) as [|t q] eqn:Eq; [reflexivity|]. exfalso.
+    assert (Hq : ph (tasks s t) = PQueued) by (apply (q_ph P); rewrite Eq; left; reflexivity).
+    destruct (Hph t) as [H1|H1]; congruence.
 Qed.
 
 (* C08_all_run *)
